@@ -100,7 +100,7 @@ let () =
           if String.contains flags 'I' && dim >= 1 then begin
             let c = qdiv (qi 1) (qminus (qi 1) eps) in
             let kr = rips_complex d nn (nat_of_int dim) in
-            let res = ref "1" and info = Buffer.create 256 and same = ref true in
+            let res = ref "1" and info = Buffer.create 256 and same = ref true and tight = ref 0 in
             List.iter (fun p ->
                 match bars (z_of_int p) kc, bars (z_of_int p) kr with
                 | Some bs, Some br ->
@@ -109,11 +109,16 @@ let () =
                   (match find_matching (qi 1) a b with
                    | Some m when check_matching (qi 1) a b m -> ()
                    | _ -> same := false);
+                  (* smallest k in 0..8 such that the factor 1 + (c-1)k/8 already suffices (how much of the allowed excess is used) *)
+                  let rec first k = if k >= 8 then 8 else
+                      let ck = qplus (qi 1) (qmult (qminus c (qi 1)) (qmake (z_of_int k) (z_of_int 8))) in
+                      (match find_matching ck a b with Some m when check_matching ck a b m -> k | _ -> first (k + 1)) in
+                  tight := max !tight (first 0);
                   (match find_matching c a b with
                    | Some m when check_matching c a b m -> ()
                    | _ -> res := "0")
                 | _ -> res := "fail") [2; 3];
-            ((if !res = "1" && not !same then "1x" else !res), Buffer.contents info)
+            ((if !res = "1" && not !same then "1x" else !res), Printf.sprintf " | T %d" !tight ^ Buffer.contents info)
           end else ("-", "") in
         emit (Printf.sprintf "greedy=%s ok=%s lvl=%s sens=%s sub=%s valid=%s inter=%s | M %s%s" (bstr greedy) (bstr ok) (bstr lvl) (bstr sens) (bstr sub) (bstr valid) inter
                 (canon_cplx km) binfo)
